@@ -5,11 +5,9 @@ import (
 	"context"
 	"encoding/json"
 	"fmt"
-	"io"
 	"net/http"
 	"os"
 	"path/filepath"
-	"regexp"
 	"strings"
 	"sync"
 
@@ -18,6 +16,7 @@ import (
 	"github.com/getkin/kin-openapi/routers"
 	"github.com/getkin/kin-openapi/routers/legacy"
 
+	"verif.local/lab/cases"
 	"verif.local/lab/rt"
 	"verif.local/lab/spec"
 )
@@ -158,12 +157,23 @@ func httpReqOf(w *rt.WireReq) (*http.Request, error) {
 // whose agreement is counted (notes), not judged.
 func C14(sp *spec.Spec, ex *rt.Exchange) *Verdict {
 	v := &Verdict{}
-	_, m := sp.FindMethod(ex.Case.Svc, ex.Case.Method)
+	sv, m := sp.FindMethod(ex.Case.Svc, ex.Case.Method)
 	if m == nil {
 		v.Inconclusive = "unknown method"
 		return v
 	}
 	c := ex.Case
+	if m.HTTP != nil && sv != nil {
+		// goa accepts designs in which two methods declare the same verb and path; the document then holds one
+		// operation for both (the last one): the operation found for the request may be another method's
+		claims := routeClaims(sp)
+		for ri, r := range m.HTTP.Routes {
+			if claims[r.Verb+" "+normPath(cases.FullPath(sp, sv, m, ri))] > 1 {
+				v.Inconclusive = "route declared by several methods of the design"
+				return v
+			}
+		}
+	}
 	if ex.BuildErr != "" {
 		v.Inconclusive = "value builder: " + firstLine(ex.BuildErr)
 		return v
@@ -203,10 +213,13 @@ func C14(sp *spec.Spec, ex *rt.Exchange) *Verdict {
 	if eb := DecodeErrBody(ex.WireResp.Body); eb != nil {
 		serverMsg = eb.Message
 	}
-	tags = mergeTags(tags, c14Tags(sp, m, errs, serverMsg))
+	tags = mergeTags(tags, c14Tags(j.oa, m, ex.WireReq, site, loc, errs, serverMsg))
 	if !matched {
 		if ex.WireResp.Status == 404 || ex.WireResp.Status == 405 {
 			return v
+		}
+		if j.oa.catchAllSpansSegments(ex.WireReq) {
+			tags = mergeTags(tags, []string{"doc:catch-all-path-spans-segments"})
 		}
 		v.add(mkKey("rejected:fault", "request-served-but-no-documented-operation-matches", "", tags), "the server answered %d for %s %s but no documented operation matches", ex.WireResp.Status, ex.WireReq.Method, ex.WireReq.URL)
 		return v
@@ -244,6 +257,7 @@ func C14(sp *spec.Spec, ex *rt.Exchange) *Verdict {
 		return v
 	}
 	cls := ""
+	var mapped []spec.Loc // attributes of the returned value written to headers/cookies of this response
 	switch {
 	case oc.Kind == "result":
 		if m.Result != nil {
@@ -258,31 +272,104 @@ func C14(sp *spec.Spec, ex *rt.Exchange) *Verdict {
 		if isViewed(sp, m) {
 			cls = "viewed-result"
 		}
+		if resp := pickResponse(m, oc.Result); resp != nil {
+			mapped = append(append(mapped, resp.Headers...), resp.Cookies...)
+		}
 	case strings.HasSuffix(oc.Kind, "declared"):
 		cls = "declared-error"
 		if oc.Custom {
 			cls += ":custom-type"
+			for _, e := range sp.AllErrors(sv, m) {
+				if e.Name == oc.ErrName && e.Type != nil {
+					var viol []Violation
+					var und []string
+					Validate(sp, e.Type, nil, oc.ErrTree, "", &viol, &und, 0)
+					if len(viol) > 0 || len(und) > 0 {
+						return v // the scripted error value itself violates the design (depth cut-off of the value generator)
+					}
+				}
+			}
+		}
+		if he := sp.HTTPErrorFor(sv, m, oc.ErrName); he != nil {
+			mapped = append(mapped, he.Headers...)
 		}
 	default:
 		return v
 	}
-	rerrs, und := j.oa.judgeResponse(ex.WireReq, ex.WireResp)
+	meant := ""
+	if cls == "declared-error" {
+		meant = "application/vnd.goa.error" // errors of the default type are documented under the ErrorResult identifier
+	}
+	rerrs, und := j.oa.judgeResponse(ex.WireReq, ex.WireResp, meant)
 	if und != "" {
 		return v
 	}
-	if len(rerrs) > 0 {
-		rtags := ExplainResult(sp, m, oc.Result)
-		kcls := strings.Join(classesOf(rerrs), "+")
+	if len(rerrs) == 0 {
+		return v
+	}
+	// how many declared outcomes of the method share this status (the document has ONE response per status)
+	sharing := 0
+	if m.HTTP != nil {
+		for _, r := range m.HTTP.Responses {
+			if r.Status == ex.WireResp.Status {
+				sharing++
+			}
+		}
+		if len(m.HTTP.Responses) == 0 && ((m.Result == nil && ex.WireResp.Status == 204) || (m.Result != nil && ex.WireResp.Status == 200)) {
+			sharing++
+		}
+		for _, e := range sp.AllErrors(sv, m) {
+			if he := sp.HTTPErrorFor(sv, m, e.Name); he != nil && he.Status == ex.WireResp.Status {
+				sharing++
+			}
+		}
+	}
+	// one finding per root cause: every schema error is attributed to the known class its own text gives evidence for
+	groups := map[string][]string{}
+	var order []string
+	for _, e := range rerrs {
+		tag := ""
+		switch {
+		case strings.HasPrefix(e, "content-type@header: application/json served, documented application/vnd.goa.error") && !oc.Custom:
+			tag = "doc:error-media-type"
+		case strings.HasPrefix(e, "content-type@") && sharing > 1:
+			tag = "doc:responses-sharing-status"
+		case strings.Contains(e, "@header:set-cookie"):
+			tag = "doc:set-cookie-header-schema"
+		case strings.HasPrefix(e, "length@") && strings.Contains(e, "[text of a "):
+			tag = "schema:bytes-length-on-base64-text"
+		case strings.HasPrefix(e, "required@body: member "):
+			for _, l := range mapped {
+				if strings.Contains(e, fmt.Sprintf("member %q missing", l.Attr)) {
+					tag = "doc:header-mapped-attribute-in-body-schema"
+				}
+			}
+			if tag == "" && sharing > 1 {
+				tag = "doc:responses-sharing-status"
+			}
+		case strings.Contains(e, "@body") && sharing > 1:
+			tag = "doc:responses-sharing-status"
+		}
+		if _, ok := groups[tag]; !ok {
+			order = append(order, tag)
+		}
+		groups[tag] = append(groups[tag], e)
+	}
+	for _, tag := range order {
+		errs := groups[tag]
+		tags := []string{tag}
+		if tag == "" {
+			tags = ExplainResult(sp, m, oc.Result)
+		}
+		kcls := strings.Join(classesOf(errs), "+")
 		where := ""
-		for _, e := range rerrs {
-			if strings.Contains(e, "@header:set-cookie") {
-				where = ":set-cookie"
-			} else if strings.Contains(e, "@header:") && where == "" {
+		for _, e := range errs {
+			if strings.Contains(e, "@header:") {
 				where = ":header"
 			}
 		}
-		v.add(mkKey("refused:"+kcls, fmt.Sprintf("response-not-conforming:%s:%s%s", cls, kcls, where), "", rtags),
-			"the %d response does not conform to the documented response: %s | content-type=%s body=%s", ex.WireResp.Status, trunc(strings.Join(rerrs, "; "), 300), first(headerVals(ex.WireResp.Header, "Content-Type")), trunc(string(ex.WireResp.Body), 200))
+		v.add(mkKey("refused:"+kcls, fmt.Sprintf("response-not-conforming:%s:%s%s", cls, kcls, where), "", tags),
+			"the %d response does not conform to the documented response: %s | content-type=%s body=%s", ex.WireResp.Status, trunc(strings.Join(errs, "; "), 300), first(headerVals(ex.WireResp.Header, "Content-Type")), trunc(string(ex.WireResp.Body), 200))
 	}
 	return v
 }
@@ -316,41 +403,20 @@ func schemaErrClass(err error) string {
 	return "other"
 }
 
-var _ = io.EOF
-
-// c14Tags names the known schema/validation drift classes that account for a disagreement. They are
-// derived from the evidence of the disagreement itself (the schema's error paths, or the attribute the
-// server's error message names), not from the mere presence of such attributes in the design.
-func c14Tags(sp *spec.Spec, m *spec.Method, schemaErrs []string, serverMsg string) []string {
+// c14Tags names the known schema/validation drift classes that account for a request-side disagreement. They
+// are derived from the evidence of the disagreement itself: the schema's own error texts, the Go value the
+// server's error message prints, and what the documented schema says about the location the probe mutated
+// (site) -- not from the mere presence of such attributes in the design.
+func c14Tags(d *oaDoc, m *spec.Method, w *rt.WireReq, site, loc string, schemaErrs []string, serverMsg string) []string {
 	var tags []string
 	if m.Payload == nil {
 		return nil
 	}
-	kindAt := func(path string) (string, *spec.Attr) {
-		path = strings.TrimPrefix(path, "body")
-		a := attrAt(sp, m.Payload, path)
-		if a == nil {
-			return "", nil
-		}
-		rt, _ := sp.Resolve(a.Type)
-		if rt == nil {
-			return "", a
-		}
-		return rt.Kind, a
-	}
-	// schema rejects: every error is a length error on a bytes attribute
+	// ---- the schema rejects
 	if len(schemaErrs) > 0 {
 		all := true
 		for _, e := range schemaErrs {
-			j := strings.Index(e, "@")
-			k := strings.Index(e, ": ")
-			if j < 0 || k < j || e[:j] != "length" {
-				all = false
-				break
-			}
-			p := e[j+1 : k]
-			p = regexp.MustCompile(`\{[^}]*\}`).ReplaceAllString(p, "{x}")
-			if kind, _ := kindAt(p); kind != spec.Bytes {
+			if !(strings.HasPrefix(e, "length@") && strings.Contains(e, "[text of a ")) {
 				all = false
 				break
 			}
@@ -358,28 +424,39 @@ func c14Tags(sp *spec.Spec, m *spec.Method, schemaErrs []string, serverMsg strin
 		if all {
 			tags = append(tags, "schema:bytes-length-on-base64-text")
 		}
-		onlyNullBody := len(schemaErrs) == 1 && strings.HasPrefix(schemaErrs[0], "type@body: null")
-		if onlyNullBody {
+		if len(schemaErrs) == 1 && strings.HasPrefix(schemaErrs[0], "type@body: null") {
 			tags = append(tags, "schema:null-body")
 		}
 		if len(schemaErrs) == 1 && schemaErrs[0] == "required@body: missing" {
 			tags = append(tags, "schema:request-body-documented-required")
 		}
+		return tags
 	}
-	// server rejects: which attribute does its message name?
-	if mm := regexp.MustCompile(`(?:length of |value of |^|; )(body[A-Za-z0-9_.\[\]]*|[a-z_0-9]+) must`).FindStringSubmatch(serverMsg); mm != nil {
-		p := mm[1]
-		if strings.Contains(p, "[key]") || strings.Contains(p, ".key") {
+	// ---- the server rejects: what does its message talk about?
+	if serverMsg != "" {
+		switch {
+		case strings.Contains(serverMsg, "[key] must") || strings.Contains(serverMsg, ".key must") || strings.Contains(serverMsg, "[key]."):
 			tags = append(tags, "schema:map-key-elem-validation-not-documented")
-		} else {
-			if !strings.HasPrefix(p, "body") {
-				p = "." + p
-			}
-			switch kind, _ := kindAt(p); kind {
-			case spec.Map:
+		case strings.HasPrefix(serverMsg, "length of ") && strings.Contains(serverMsg, "but got value map["):
+			tags = append(tags, "schema:map-length-not-documented")
+		case strings.HasPrefix(serverMsg, "length of ") && (strings.Contains(serverMsg, "but got value []byte{") || strings.Contains(serverMsg, "but got value []uint8{")):
+			tags = append(tags, "schema:bytes-length-on-base64-text")
+		}
+	}
+	// ---- and what does the documented body schema say about the mutated location?
+	p := strings.SplitN(site, ":", 3)
+	if len(tags) == 0 && len(p) == 3 && loc == "body" && d != nil && w != nil {
+		path := p[2]
+		if m.HTTP != nil && strings.HasPrefix(m.HTTP.Body, "attr:") {
+			path = strings.TrimPrefix(path, "."+strings.TrimPrefix(m.HTTP.Body, "attr:"))
+		}
+		node, stop := d.walk(d.requestBodySchema(w), path)
+		switch {
+		case stop == "map-key" || stop == "free-form":
+			tags = append(tags, "schema:map-key-elem-validation-not-documented")
+		case node != nil && p[0] == "length":
+			if _, isMap := node["additionalProperties"]; isMap {
 				tags = append(tags, "schema:map-length-not-documented")
-			case spec.Bytes:
-				tags = append(tags, "schema:bytes-length-on-base64-text")
 			}
 		}
 	}
